@@ -32,7 +32,8 @@ META = {
     "assumptions": [
         "the verifier is stdlib ssl (system libssl) with VERIFY_X509_STRICT; it trusts only the self-signed root of mitmproxy's CA (for the custom chain: the root above the signing CA)",
         "'valid now' is judged against the clock at verification time; mitmproxy's window is -2 days .. +197 days, so the margin is days on both sides",
-        "a literal '*' label in the SNI cannot be verified by any X.509 verifier; for that identity only the certificate-content clauses are judged",
+        "SNI values are host names (letters, digits, hyphen, underscore; IDNs as A-labels). A literal '*' label is not one: ClientHello.sni discards it (C13's subject) and no X.509 "
+        "verifier can match it, so the 'wildcard-looking' form of the quantifier is represented on the upstream side (CN/SAN '*.upstream.example')",
         "names are compared case-insensitively; an upstream Common Name that is not a host name may be copied into the SAN in its IDNA form",
         "the CertStore is emptied between cases so that no verdict depends on the order of cases (cache behaviour is C17's subject)",
     ],
@@ -54,7 +55,6 @@ THOROUGH_IDENTITIES = {
     "upper": ("WWW.Example.COM", "WWW.Example.COM", "dns-upper"),
     "digits": ("1.2.3.4.example.com", "1.2.3.4.example.com", "dns"),
     "hyphens": ("a--b.x-y.example.com", "a--b.x-y.example.com", "dns"),
-    "wildcard-looking": ("*.example.com", "*.example.com", "wildcard-looking"),
     "ipv4-mapped-local": ("::ffff:192.0.2.2", None, "ipv6"),
 }
 ALL_IDS = {**IDENTITIES, **THOROUGH_IDENTITIES}
